@@ -2,6 +2,6 @@
    with its specification (part B).  Directives: ExtrOcamlBasic only (bool, option, unit, list,
    prod -> OCaml natives); nat, N, Z, positive stay the Coq inductive types. *)
 From Coq Require Import Extraction ExtrOcamlBasic.
-From NV Require Import Rec.FreeVars Rec.Lang Rec.Spec Rec.Mech.
+From NV Require Import Rec.FreeVars Rec.Lang Rec.Spec Rec.Mech Rec.Nested.
 Extraction "c07_fv.ml" all_deps collect.
-Extraction "c07_mech.ml" irun ifields cfg_current cfg_fixed with_unknown srun sfield skeys vars.
+Extraction "c07_mech.ml" irun ifields ifield cfg_current cfg_fixed with_unknown srun sfield skeys vars inst sinst.
